@@ -64,6 +64,9 @@ pub struct CaseLog {
     pub panics: Vec<PanicRec>,
     /// class tags computed from the INPUT (never from the outcome)
     pub tags: Vec<String>,
+    /// while set, guarded calls still run (under catch_unwind) but leave no trace (used to skip
+    /// operations of a history when shrinking)
+    pub mute: bool,
     /// replayable description of the input (history text / file list); bytes go to `files`
     pub desc: String,
     pub files: Vec<(String, Vec<u8>)>,
@@ -76,6 +79,9 @@ pub struct CaseLog {
 impl CaseLog {
     /// run `f` under catch_unwind; Ok/Err classification through `is_ok`
     pub fn guard<T>(&mut self, entry: &str, f: impl FnOnce() -> T, is_ok: impl Fn(&T) -> bool) -> Option<T> {
+        if self.mute {
+            return std::panic::catch_unwind(std::panic::AssertUnwindSafe(f)).ok();
+        }
         self.calls += 1;
         if let Ok(mut g) = LAST_PANIC.lock() {
             *g = None;
@@ -366,6 +372,10 @@ fn depth(a: &Args) {
 
 // ------------------------------------------------------------------------------------ master
 fn counts(tier: &str) -> Vec<(&'static str, u64)> {
+    if tier == "extended" {
+        // the search that runs when an anchor / proof obligation is broken and the quick search found nothing
+        return vec![("glif", 60_000), ("ufo", 20_000), ("ds", 10_000), ("api", 40_000), ("names", 40_000)];
+    }
     if tier == "thorough" {
         vec![("glif", 450_000), ("ufo", 120_000), ("ds", 100_000), ("api", 130_000), ("names", 200_000)]
     } else {
